@@ -528,7 +528,7 @@ def run(pid, mod, tier, seed, t0):
                           'not_executed': {q: v[:12] for q, v in list(cov['uncovered'].items())[:60]},
                           'new_unexercised': cov['new_unexercised'][:20], 'baseline_lines_not_reached_this_run': cov['lost'][:40],
                           'texts': cov['texts']},
-        'value_semantics_guard': dict(purity.STATS, mutation_events=len(purity.EVENTS), history_events=len(purity.HISTORY_EVENTS), dtype_events=len(purity.DTYPE_EVENTS)),
+        'value_semantics_guard': dict(purity.STATS, mutation_events=len(purity.EVENTS), history_events=len(purity.HISTORY_EVENTS), dtype_events=len(purity.DTYPE_EVENTS), container_events=len(purity.CONTAINER_EVENTS)),
         'notes': ctx.notes,
     }
     ev = {'property_id': pid, 'tier': tier, 'seed': seed, 'level': 'proof', 'coverage': cov,
